@@ -230,6 +230,12 @@ class Ctx:
                                self.describe(quo[2], depth + 1)]
             except Exception as exc:
                 rec["quot"] = self.describe_exc(exc)
+            try:
+                quo = obj.inverse_quotation
+                rec["iquot"] = [quo[0].symbol, quo[1].symbol,
+                                self.describe(quo[2], depth + 1)]
+            except Exception as exc:
+                rec["iquot"] = self.describe_exc(exc)
             return rec
         if isinstance(obj, Rational):
             return {"k": "N", "at": type(obj).__name__, "a": _nd(obj),
